@@ -265,3 +265,127 @@ def VAL(o: Outcome, i) -> RF:
     if isinstance(q, Num):
         return st.norm(q.rf)
     raise TypeError(q)
+
+
+# ------------------------------------------------------------------ shared judges
+def conv_atoms(rf: RF):
+    return [a for a in rf.atoms() if a[0] == "conv"]
+
+
+def judge_addsub(sign: int, fl: str):
+    """K4: same-type sum/difference in the left operand's unit and type."""
+    def judge(o: Outcome):
+        st = o.state
+        s, other = o.args[0], o.args[1]
+        linear = fl in ("ref", "ref+quantum")
+        if o.kind == "raise":
+            if o.exc.name == "UnitConversionError" and not linear:
+                if st.same_unit(s.unit.uid, other.unit.uid) is True:
+                    return (exc_sig(o), "identical units cannot fail to convert")
+                return None
+            return (exc_sig(o), "contract: sum/difference in the left operand's unit")
+        v = o.value
+        if isinstance(v, QtyV) and v.amount is not None:
+            ex = st.expand_rnd(v.amount.rf)
+            ca = conv_atoms(ex)
+            if ca:
+                if linear:
+                    return ("converter consulted for a linear type", repr(ex))
+                want = st.norm(s.amount.rf) + RF.const(sign) * RF.atom(ca[0])
+                return judge_qty(o, unit=s.unit, tid=s.tid, amount=want)
+        want = VAL(o, 0) + RF.const(sign) * VAL(o, 1)
+        return judge_qty(o, unit=s.unit, tid=s.tid, value=want)
+    return judge
+
+
+CMP_OPS = {"__lt__": "<", "__le__": "<=", "__gt__": ">", "__ge__": ">=", "__eq__": "=="}
+
+
+def judge_compare(opname: str, fl: str, units=False):
+    """K10: op(L, R) with L*c = val(self), R*c = val(other), c a positive monomial, in this order."""
+    want_op = CMP_OPS[opname]
+
+    def judge(o: Outcome):
+        st = o.state
+        s, other = o.args[0], o.args[1]
+        linear = fl in ("ref", "ref+quantum")
+        if o.kind == "raise":
+            if opname == "__eq__":
+                return (exc_sig(o), "equality must not raise")
+            if o.exc.name == "UnitConversionError" and not linear:
+                su = s if units else s.unit
+                ou = other if units else other.unit
+                if st.same_unit(su.uid, ou.uid) is True:
+                    return (exc_sig(o), "identical units cannot fail to convert")
+                return None
+            return (exc_sig(o), "contract: boolean result")
+        v = o.value
+        if isinstance(v, BoolV):
+            if opname == "__eq__" and not linear and v.val is False:
+                su = s if units else s.unit
+                ou = other if units else other.unit
+                if st.same_unit(su.uid, ou.uid) is True:
+                    return ("identical units compare unequal", "")
+                return None      # not convertible => unequal
+            if units and opname == "__eq__" and not linear:
+                su, ou = s, other
+                same = st.same_unit(su.uid, ou.uid)
+                if v.val == (same is True) and same is not None:
+                    return None
+            return ("constant comparison result", f"{v!r} for symbolic operands")
+        if not isinstance(v, CmpV):
+            return ("returns non-boolean", repr(v))
+        if v.negated or v.op != want_op:
+            return ("wrong comparison operator", f"{v!r}; contract operator {want_op}")
+        L, R = st.norm(v.l.rf), st.norm(v.r.rf)
+        ca = conv_atoms(R) + conv_atoms(L)
+        if ca:
+            if linear:
+                return ("converter consulted for a linear type", repr(v))
+            if L.equals(st.norm(s.amount.rf)) and R.equals(RF.atom(ca[0])):
+                return None
+            return ("converter result misplaced", repr(v))
+        vs, vo = VAL(o, 0), VAL(o, 1)
+        if units:
+            # units compare by scale: op(mu(self)/mu(other), 1) or op(scale(self), scale(other))
+            pass
+        # L/vs == R/vo == 1/c with c positive monomial
+        if (L * vo).equals(R * vs):
+            c = None
+            if not vs.is_zero() and not L.is_zero():
+                c = vs / L
+            if c is not None:
+                from .models2 import FullModels
+                sg = _sign_of_rf(st, c)
+                if sg == 1:
+                    return None
+                return ("operands scaled by a factor of unknown sign", f"{v!r}, common factor {c!r}")
+            return None
+        return ("operands are not the two values in one unit, in order",
+                f"{v!r}; contract {want_op}(val(self)/c, val(other)/c): val(self)={vs!r}, val(other)={vo!r}")
+    return judge
+
+
+def _sign_of_rf(st: State, rf: RF):
+    rf = st.norm(rf)
+    if not (rf.d.is_const() or rf.d.is_monomial()):
+        return None
+    signs = set()
+    for m, c in rf.n.t.items():
+        for a, e in m:
+            if a[0] not in ("mu", "rho", "Qm", "sf", "pw10", "beta", "const"):
+                return None
+        signs.add(1 if c / rf.d.const_value() > 0 else -1)
+    return signs.pop() if len(signs) == 1 else None
+
+
+def other_values():
+    """Non-quantity right operands: (label, maker)."""
+    return [
+        ("int", lambda c: c.num("k", "int")),
+        ("Decimal", lambda c: c.num("k", "dec")),
+        ("Fraction", lambda c: c.num("k", "frac")),
+        ("float", lambda c: c.num("k", "float")),
+        ("str", lambda c: StrV(None, "text")),
+        ("None", lambda c: NONE),
+    ]
